@@ -6,6 +6,7 @@ import Driver.OpsContent
 import Driver.OpsPipeline
 import Driver.OpsDir
 import Driver.OpsSearch
+import Driver.OpsContainer
 
 open Jubako Jubako.Driver
 
@@ -33,6 +34,7 @@ def dispatch (line : String) : IO String := do
   | "dp.decode" :: args => runDir fileOf "dp.decode" args
   | "dp.encode" :: args => runDirEncode fileOf args
   | "find" :: args => return runFind args
+  | "ct.open" :: args => runContainerOpen args
   | ["ping"] => return "pong"
   | _ => return "bad-op"
 
